@@ -6,7 +6,7 @@ import builders as B
 from smtlib import Table, Signature, read_all, parse_term, SmtError, BOOL, INT, REAL, arr_sort
 from engine import TermReader
 
-DRIVER = os.path.join(C.VERIF, "build", "drivers", "rel", "terms_driver")
+DRIVER = os.path.join(C.BUILD, "drivers", "rel", "terms_driver")
 COMM = {"and", "or", "xor", "=", "distinct", "+", "*"}
 
 def drv_sort(s):
